@@ -48,8 +48,8 @@ RESULT = st.fixed_dictionaries({
 
 
 def plan(tier):
-    n, per = (10, 200) if tier == 'quick' else (14, 7000)
-    sh = [{'kind': 'export', 'n': per} for _ in range(n)] + [{'kind': 'write_line', 'n': 1500 if tier == 'quick' else 50000}]
+    n, per = (14, 900) if tier == 'quick' else (14, 7000)
+    sh = [{'kind': 'export', 'n': per} for _ in range(n)] + [{'kind': 'write_line', 'n': 6000 if tier == 'quick' else 50000}]
     if tier == 'thorough':       # coverage-guided campaigns on the same tests (atheris), own seed and corpus each
         sh += [{'kind': 'fuzz', 'target': 'export', 'runs': 15000} for _ in range(6)] + [{'kind': 'fuzz', 'target': 'write_line', 'runs': 30000}]
     return sh
